@@ -4,4 +4,5 @@ INVARIANT SAgree
 INVARIANT Emit
 CONSTANT ReadShapes <- ShapesAll
 CONSTANT ReadMax = 1
+CONSTANT PairShapes <- PairsOne
 CHECK_DEADLOCK FALSE
